@@ -420,6 +420,47 @@ def rule_r5(ctx, rep):
     rep.floor("registry deletions in delete_node_instance", 1)
 
 
+def rule_r7(ctx, rep):
+    """no orphan registrations: a node a library function creates (constructor or copy -- both register it) is handed on
+    (returned, attached, stored, passed to a call) or unregistered by that function; a node that is only read from stays in
+    the registry for ever although nothing can reach it"""
+    w = ctx.world
+    for fi in lib_funcs(ctx):
+        ft = w.types(fi)
+        created = []
+        for n in ast.walk(fi.node):
+            if isinstance(n, ast.Assign) and len(n.targets) == 1 and isinstance(n.targets[0], ast.Name) and isinstance(n.value, ast.Call):
+                tgs = w.resolve_call(ft, n.value)
+                if any((t.kind == "class" and t.name == NODE_Q) or (t.func is not None and t.func.qname == NODE_Q + ".copy" and len(tgs) == 1) for t in tgs):
+                    created.append((n, n.targets[0].id))
+        for (a, x) in created:
+            rep.count("nodes created into a local")
+            handed = False
+            for n in ast.walk(fi.node):
+                if isinstance(n, ast.Return) and n.value is not None and any(isinstance(m, ast.Name) and m.id == x for m in ast.walk(n.value)):
+                    handed = True
+                elif isinstance(n, (ast.Yield, ast.YieldFrom)) and n.value is not None and any(isinstance(m, ast.Name) and m.id == x for m in ast.walk(n.value)):
+                    handed = True
+                elif isinstance(n, ast.Call):
+                    args = list(n.args) + [k.value for k in n.keywords]
+                    direct = any(isinstance(m, ast.Name) and m.id == x for arg in args for m in ([arg] if isinstance(arg, ast.Name) else
+                                                                                                 (arg.elts if isinstance(arg, (ast.Tuple, ast.List)) else [])))
+                    by_id = any(isinstance(arg, ast.Attribute) and isinstance(arg.value, ast.Name) and arg.value.id == x and arg.attr in ("id", "_id") for arg in args)
+                    if direct and not (isinstance(n.func, ast.Attribute) and n.func.attr == "set_node_instance"):
+                        handed = True
+                    if by_id and isinstance(n.func, ast.Attribute) and n.func.attr == "delete_node_instance":
+                        handed = True
+                elif isinstance(n, ast.Assign) and n is not a:
+                    if any(isinstance(m, ast.Name) and m.id == x for m in ([n.value] if isinstance(n.value, ast.Name) else
+                                                                           (n.value.elts if isinstance(n.value, (ast.Tuple, ast.List)) else []))):
+                        handed = True
+            rep.oblige(("R7", fi.qname, x), handed, sample={"created": norm(a), "in": fi.name, "handed on": handed})
+            if not handed:
+                rep.add("R7", fi.qname, a, f"`{x}` is created (and thereby registered) here but is neither returned, attached, stored, passed on nor "
+                        f"unregistered: it stays in the registry although no tree contains it", fi.loc(a))
+    rep.floor("nodes created into a local", 4)
+
+
 def run(ctx, rep):
     rep.explanation = (
         "registration discipline decided structurally: Node.__init__ registers on every path after the id is set (marker "
@@ -427,7 +468,7 @@ def run(ctx, rep):
         "_id and the registry written only by their owners (effect analysis), every discard in prune / expand / replace_child "
         "paired on all paths with the unregistration of the same node (children included), every unregistration preceded by the "
         "detachment of that node or the no-parent outcome, and delete_node_instance removes exactly its key plus the subtree")
-    rep.rules_run = ["R1", "R2", "R3", "R4", "R5", "R6"]
+    rep.rules_run = ["R1", "R2", "R3", "R4", "R5", "R6", "R7"]
     rep.assumptions += ["NOT decided: uuid1 uniqueness", "copy() registration is C12-R3"]
     only = getattr(rep, "only", None)
     if only in (None, "R1", "R2"):
@@ -438,3 +479,5 @@ def run(ctx, rep):
         rule_r5(ctx, rep)
     if only in (None, "R6"):
         rule_r6(ctx, rep)
+    if only in (None, "R7"):
+        rule_r7(ctx, rep)
